@@ -19,7 +19,13 @@ pub fn run(prop: &str, ctx: &mut Ctx) -> bool {
         "C07" => c07::run(ctx),
         "C10" => c10::run(ctx),
         "C12" => c12::run(ctx),
-        "C01" | "C02" | "C03" | "C04" => { let n = ctx.budget(72, 12); qrig::standard_histories(ctx, &prop.to_lowercase(), n) }
+        "C01" | "C02" | "C03" | "C04" => {
+            let n = ctx.budget(72, 12); qrig::standard_histories(ctx, &prop.to_lowercase(), n);
+            if prop == "C03" && ctx.tier_thorough {
+                ctx.tr.scenario("c03-soak-n4-direct"); qrig::soak::<4>(ctx, 0, 70_000);
+                ctx.tr.scenario("c03-soak-n8-indirect-eventidx"); qrig::soak::<8>(ctx, 3, 70_000);
+            }
+        }
         "C14" => c14::run(ctx),
         "C15" => c15::run(ctx),
         "C13" => c13::run(ctx),
